@@ -67,7 +67,7 @@ def gen(rng, i, tier):
     if rng.random() < 0.15:
         invalid = str(rng.choice(["rsf", "recip", "lorch", "lowq"]))
         if invalid == "rsf":
-            kw["RealSpaceFunction"] = "Gk(r)"
+            kw["RealSpaceFunction"] = str(rng.choice(["Gk(r)", "G", "(r)", "g(r), G(r)", "", "K(r)", "g(r) "]))
         elif invalid == "lorch":
             kw["LorchFlag"] = 1
         elif invalid == "lowq":
@@ -107,7 +107,8 @@ def files_of(case, names):
         for f in fs:
             f.pop("Qmin")  # the per-dataset window is optional: the whole file is used, including its first data row
     if case["invalid"] == "recip":
-        fs[0]["ReciprocalFunction"] = "F(Q)"
+        bad = ["F(Q)", "S(Q)-1", "[S(Q)-1]", "CS(Q)", "K(Q)", "(Q)", "Q", "", "s(q)", "S(Q) ", "S(Q), Q[S(Q)-1]", "FK(Q), DCS(Q)"]
+        fs[0]["ReciprocalFunction"] = bad[case["seed"] % len(bad)]
     return fs
 
 
